@@ -134,13 +134,30 @@ pub fn gen_case(rng: &mut Rng, profile: &str, size: usize) -> Case {
         max_nodes: if big { 40 } else { size }, min_nodes: if big { 21 } else { 1 }, weights: wm, allow_multi: true, allow_loops: true,
         directed: None, density_pct: if big { 6 } else { 22 },
     };
-    let g = gen_graph(rng, &o);
+    let mut g = gen_graph(rng, &o);
+    if big && rng.chance(35) {
+        // a long chain with a few chords: distances well above the number of nodes when weighted
+        let n = g.nodes.len();
+        g.edges.clear();
+        for i in 0..n.saturating_sub(1) {
+            let w = match wm { WeightMode::Unweighted => None, _ => Some(rng.range(2, 4)) };
+            g.edges.push((g.nodes[i], g.nodes[i + 1], w));
+            if g.specs.directed && rng.chance(70) { g.edges.push((g.nodes[i + 1], g.nodes[i], w)); }
+        }
+        for _ in 0..rng.range(0, 3) {
+            let (a, b) = (*rng.pick(&g.nodes), *rng.pick(&g.nodes));
+            if a != b || g.specs.self_loops { g.edges.push((a, b, match wm { WeightMode::Unweighted => None, _ => Some(rng.range(1, 4)) })); }
+        }
+    }
     let weighted = wm != WeightMode::Unweighted && rng.chance(75);
     let absent = 99u32;
-    let target = if rng.chance(45) { if rng.chance(8) { Some(absent) } else if g.nodes.is_empty() { None } else { Some(*rng.pick(&g.nodes)) } } else { None };
-    let cutoff2 = if rng.chance(40) { Some(rng.range(0, 12)) } else { None };
+    let target = if rng.chance(if big { 30 } else { 45 }) { if rng.chance(8) { Some(absent) } else if g.nodes.is_empty() { None } else { Some(*rng.pick(&g.nodes)) } } else { None };
+    // (twice the) cutoff: around the distances that occur - small graphs have distances up to ~6, the sparse graphs of the
+    // parallel profile up to a few times their node count
+    let cutoff2 = if big { if rng.chance(55) { Some(rng.range(0, 6 * g.nodes.len() as i64)) } else { None } }
+                  else if rng.chance(40) { Some(rng.range(0, 12)) } else { None };
     let involving = if g.nodes.is_empty() { absent } else { *rng.pick(&g.nodes) };
-    Case { g, weighted, target, cutoff2, first_only: rng.chance(35), with_paths: rng.chance(70), involving }
+    Case { g, weighted, target, cutoff2, first_only: rng.chance(35), with_paths: rng.chance(if big { 45 } else { 70 }), involving }
 }
 
 pub fn candidates(c: &Case) -> Vec<String> {
